@@ -819,5 +819,117 @@ pub open spec fn prefix_upper(p: Seq<u8>) -> core::ops::Bound<Seq<u8>> {
     match adv(p) { Some(np) => core::ops::Bound::Excluded(np), None => core::ops::Bound::Unbounded }
 }
 
+
+// ---------------------------------------------------------------------------
+// whole-iteration statements (C04, C05): which window of the sorted entry list a drained iterator has yielded
+// ---------------------------------------------------------------------------
+pub proof fn lemma_sat_start_mono(b: core::ops::Bound<Seq<u8>>, k1: Seq<u8>, k2: Seq<u8>)
+    requires sat_start(b, k1), lex_lt(k1, k2),
+    ensures sat_start(b, k2),
+{
+    match b {
+        core::ops::Bound::Unbounded => {}
+        core::ops::Bound::Included(a) => { lemma_lex_trans2(a, k1, k2); }
+        core::ops::Bound::Excluded(a) => { lemma_lex_trans(a, k1, k2); }
+    }
+}
+pub proof fn lemma_sat_end_mono(b: core::ops::Bound<Seq<u8>>, k1: Seq<u8>, k2: Seq<u8>)
+    requires sat_end(b, k2), lex_lt(k1, k2),
+    ensures sat_end(b, k1),
+{
+    match b {
+        core::ops::Bound::Unbounded => {}
+        core::ops::Bound::Included(e) => { lemma_lex_trans(k1, k2, e); }
+        core::ops::Bound::Excluded(e) => { lemma_lex_trans(k1, k2, e); }
+    }
+}
+pub open spec fn in_range(start: core::ops::Bound<Seq<u8>>, end: core::ops::Bound<Seq<u8>>, k: Seq<u8>) -> bool {
+    sat_start(start, k) && sat_end(end, k)
+}
+/// forward: starting at the first entry satisfying the start bound and going on while the end bound holds yields
+/// exactly the entries inside the range (indices a..b of the sorted list, so in ascending key order)
+pub proof fn lemma_range_window_fwd(es: Seq<Ent>, start: core::ops::Bound<Seq<u8>>, end: core::ops::Bound<Seq<u8>>, a: int, b: int)
+    requires
+        sorted_strict(es), is_lower(es, start, a), a <= b <= es.len(),
+        forall|j: int| a <= j < b ==> sat_end(end, #[trigger] es[j].0),
+        b < es.len() ==> !sat_end(end, es[b].0),
+    ensures
+        forall|j: int| 0 <= j < es.len() ==> ((a <= j < b) <==> in_range(start, end, #[trigger] es[j].0)),
+{
+    assert forall|j: int| 0 <= j < es.len() implies ((a <= j < b) <==> in_range(start, end, #[trigger] es[j].0)) by {
+        if j > a { lemma_sorted_pairwise(es, a, j); lemma_sat_start_mono(start, es[a].0, es[j].0); }
+        if j > b && sat_end(end, es[j].0) { lemma_sorted_pairwise(es, b, j); lemma_sat_end_mono(end, es[b].0, es[j].0); }
+    }
+}
+/// reverse: starting at the last entry satisfying the end bound and going down while the start bound holds
+pub proof fn lemma_range_window_rev(es: Seq<Ent>, start: core::ops::Bound<Seq<u8>>, end: core::ops::Bound<Seq<u8>>, u: int, l: int)
+    requires
+        sorted_strict(es), is_upper(es, end, u), 0 <= l <= u + 1,
+        forall|j: int| l <= j <= u ==> sat_start(start, #[trigger] es[j].0),
+        l > 0 ==> !sat_start(start, es[l - 1].0),
+    ensures
+        forall|j: int| 0 <= j < es.len() ==> ((l <= j <= u) <==> in_range(start, end, #[trigger] es[j].0)),
+{
+    assert forall|j: int| 0 <= j < es.len() implies ((l <= j <= u) <==> in_range(start, end, #[trigger] es[j].0)) by {
+        if j < u { lemma_sorted_pairwise(es, j, u); lemma_sat_end_mono(end, es[j].0, es[u].0); }
+        if j < l - 1 && sat_start(start, es[j].0) { lemma_sorted_pairwise(es, j, l - 1); lemma_sat_start_mono(start, es[j].0, es[l - 1].0); }
+    }
+}
+/// forward prefix iteration: from the ceiling of p while the key has prefix p == exactly the entries with prefix p
+pub proof fn lemma_prefix_window_fwd(es: Seq<Ent>, p: Seq<u8>, c: int, b: int)
+    requires
+        sorted_strict(es), is_ceil(es, p, c), c <= b <= es.len(),
+        forall|j: int| c <= j < b ==> p.is_prefix_of(#[trigger] es[j].0),
+        b < es.len() ==> !p.is_prefix_of(es[b].0),
+    ensures
+        forall|j: int| 0 <= j < es.len() ==> ((c <= j < b) <==> p.is_prefix_of(#[trigger] es[j].0)),
+{
+    assert forall|j: int| 0 <= j < es.len() implies ((c <= j < b) <==> p.is_prefix_of(#[trigger] es[j].0)) by {
+        if j < c && p.is_prefix_of(es[j].0) { lemma_prefix_le(p, es[j].0); lemma_lex_antisym(es[j].0, p); }
+        if j >= b && p.is_prefix_of(es[j].0) {
+            // es[b] >= p and lacks the prefix, so adv(p) exists and es[b] >= adv(p); es[j] >= es[b]
+            if b > c { lemma_sorted_pairwise(es, c, b); lemma_lex_trans2(p, es[c].0, es[b].0); }
+            assert(lex_le(p, es[b].0));
+            if adv(p) is Some && lex_lt(es[b].0, adv(p)->0) { lemma_adv_tight(p, es[b].0); }
+            if adv(p) is None { lemma_adv_tight(p, es[b].0); }
+            let np = adv(p)->0;
+            lemma_adv_above(p, es[j].0);
+            lemma_sorted_pairwise(es, b, j);
+            lemma_lex_trans(es[b].0, es[j].0, np);
+        }
+    }
+}
+/// reverse prefix iteration: from the last entry below adv(p) (the last entry when adv(p) is None) down while the key has prefix p
+pub proof fn lemma_prefix_window_rev(es: Seq<Ent>, p: Seq<u8>, u: int, l: int)
+    requires
+        sorted_strict(es), is_upper(es, prefix_upper(p), u), 0 <= l <= u + 1,
+        forall|j: int| l <= j <= u ==> p.is_prefix_of(#[trigger] es[j].0),
+        l > 0 ==> !p.is_prefix_of(es[l - 1].0),
+    ensures
+        forall|j: int| 0 <= j < es.len() ==> ((l <= j <= u) <==> p.is_prefix_of(#[trigger] es[j].0)),
+{
+    assert forall|j: int| 0 <= j < es.len() implies ((l <= j <= u) <==> p.is_prefix_of(#[trigger] es[j].0)) by {
+        if j > u && p.is_prefix_of(es[j].0) {
+            if adv(p) is Some { lemma_adv_above(p, es[j].0); }
+        }
+        if j < l && p.is_prefix_of(es[j].0) {
+            // es[l-1] <= es[u] lies below adv(p) and lacks the prefix, so es[l-1] < p; es[j] <= es[l-1]
+            let m = l - 1;
+            if m < u { lemma_sorted_pairwise(es, m, u); lemma_sat_end_mono(prefix_upper(p), es[m].0, es[u].0); }
+            assert(sat_end(prefix_upper(p), es[m].0));
+            if lex_le(p, es[m].0) { lemma_adv_tight(p, es[m].0); }
+            lemma_antisym_lt(p, es[m].0);
+            lemma_prefix_le(p, es[j].0);
+            if j < m { lemma_sorted_pairwise(es, j, m); lemma_lex_trans(es[j].0, es[m].0, p); lemma_lex_trans2(p, es[j].0, p); lemma_lex_irrefl(p); }
+        }
+    }
+}
+/// !(a <= b) ==> b < a
+pub proof fn lemma_antisym_lt(a: Seq<u8>, b: Seq<u8>)
+    ensures !lex_le(a, b) ==> lex_lt(b, a),
+{
+    lemma_lex_antisym(a, b);
+}
+
 } // mod ghost
 } // verus!
